@@ -65,7 +65,8 @@ VARIABLES
 vars == <<now, rcvd, arr, pend, since, phase, held, build, gone, raced, d, res>>
 
 Elic(s) == {p \in rcvd[s] : arr[s][p].el}
-Overdue(s) == \E p \in pend[s] : now > arr[s][p].t + Mad(s)
+\* owed and late: not covered by a sent ACK frame, nor by the frame already generated into the packet being assembled
+Overdue(s) == \E p \in pend[s] \ build[s].cov : now > arr[s][p].t + Mad(s)
 Live == Spaces \ gone
 
 -----------------------------------------------------------------------------
